@@ -73,14 +73,23 @@ func gen15(seed int64, tier string) []drv.Case {
 	}
 	var cs []drv.Case
 	for i := 0; i < n; i++ {
-		p := params{Leaf: uint32([]int{64, 4096}[r.Intn(2)]), Procs: []int{2, 4, 16}[i%3], Delays: i%4 != 3, Seed: r.Int63(), NDiamond: 1 + r.Intn(2), NCommit: 1 + r.Intn(2)}
+		p := params{Leaf: uint32([]int{64, 4096}[r.Intn(2)]), Procs: []int{2, 4, 16, 1}[i%4], Delays: i%4 != 3, Seed: r.Int63(), NDiamond: 1 + r.Intn(2), NCommit: 1 + r.Intn(2)}
 		k := 4 + r.Intn(13)
 		for j := 0; j < k; j++ {
 			switch r.Intn(9) {
 			case 0, 1, 2:
 				p.Ops = append(p.Ops, opSpec{Op: "upload", Repo: []string{"r1", "r2"}[r.Intn(2)], Files: files(r, 1+r.Intn(5), ""), Conc: 1 + r.Intn(4)})
 			case 3, 4:
-				p.Ops = append(p.Ops, opSpec{Op: "split-upload", Diamond: r.Intn(p.NDiamond), Split: fmt.Sprintf("s%d", j), Files: files(r, 1+r.Intn(4), fmt.Sprintf("s%d/", j)), Conc: 1 + r.Intn(4)})
+				fs := files(r, 1+r.Intn(4), fmt.Sprintf("s%d/", j))
+				conc := 1 + r.Intn(4)
+				if r.Intn(3) == 0 {
+					// a split of a few dozen files uploaded by many workers at once (results queue up behind the index writer)
+					conc = 4 + r.Intn(13)
+					for f := 0; f < 20+r.Intn(30); f++ {
+						fs[fmt.Sprintf("s%d/many/f%d", j, f)] = fmt.Sprintf("c%d", r.Intn(poolSize))
+					}
+				}
+				p.Ops = append(p.Ops, opSpec{Op: "split-upload", Diamond: r.Intn(p.NDiamond), Split: fmt.Sprintf("s%d", j), Files: fs, Conc: conc})
 			case 5:
 				p.Ops = append(p.Ops, opSpec{Op: "download", Bundle: r.Intn(3), Conc: 1 + r.Intn(10)})
 			case 6:
